@@ -986,6 +986,15 @@ pub fn raw_fuzz_entry(data: &[u8]) -> Option<crate::ev::Fail> {
         }
         Err(sc) => SealedMalformed.exec(sc),
     };
+    // OVF_FUZZ_RAW_ORACLE=c06: only the no-credential oracle counts (a panic is C07's finding); =c07: only C07's
+    let only = std::env::var("OVF_FUZZ_RAW_ORACLE").unwrap_or_default();
+    let mut out = out;
+    if let Some(f) = &out.fail {
+        let is_c06 = f.sig.contains("without-the-credential");
+        if (only == "c06" && !is_c06) || (only == "c07" && is_c06) {
+            out.fail = None;
+        }
+    }
     let mut g = RAW_STATS.lock().unwrap();
     let st = g.get_or_insert_with(|| RawFuzzStats { execs: 0, nontrivial: Default::default(), labels: Default::default() });
     st.execs += 1;
